@@ -68,7 +68,7 @@ Definition bch_texture (m : mode) (f : bytes) (h : bch_header) (toff entry : N) 
   d0 <- rd32 LE f (cmd + 16) ;;
   doff <- add32 m d0 (bh_raw h) ;;
   fmt <- rd32 LE f (cmd + 24) ;;
-  data <- rd_exact f doff (payload_size fmt width height) ;;
+  data <- rd_exact f doff (payload_size32 fmt width height) ;;
   px <- decode_pixel_data m data width height fmt ;;
   Ok (mkTexture name width height px).
 
